@@ -22,6 +22,21 @@ impl CompactCursor2 {
 /*@end*/
 }
 
+/*@type lang/utils/src/span.rs :: struct CompactSpan2
+   derive Clone, Copy, Debug, PartialEq, Eq
+@*/
+impl CompactSpan2 {
+/*@fn lang/utils/src/span.rs :: impl CompactSpan2 :: fn with_cursors
+  plain
+@*/
+/*@end*/
+
+/*@fn lang/utils/src/span.rs :: impl CompactSpan2 :: fn cursors
+  plain
+@*/
+/*@end*/
+}
+
 /*@fn lang/surface/src/textual/escape.rs :: fn apply_char_escapes
   plain
 @*/
